@@ -68,6 +68,9 @@ BAD_ELEMENTS = [
     b"GET / HTTP/1.1\r\nHost: a\r\nContent-Length: +5\r\n\r\nhello",
     b"GET / HTTP/1.1\r\nHost: a\r\nContent-Length: 5\r\nTransfer-Encoding: chunked\r\n\r\n0\r\n\r\n",
     b"GET / HTTP/1.1\r\nHost: a\r\nTransfer-Encoding: chunked\r\n\r\nzz\r\n",
+    b"POST / HTTP/1.1\r\nHost: a\r\nTransfer-Encoding: chunked\r\n\r\n\xd9\xa10\r\n\r\n",
+    b"POST / HTTP/1.1\r\nHost: a\r\nTransfer-Encoding: chunked\r\n\r\n\xff\r\n\r\n",
+    b"POST / HTTP/1.1\r\nHost: a\r\nTransfer-Encoding: chunked\r\n\r\n5;\xff=\xfe\r\nhello\r\n0\r\n\r\n" b"GET /\xfe",
     b"GET / HTTP/1.1\r\nHost: a\r\nTransfer-Encoding: chunked\r\n\r\n3\r\nabcXX",
     b"GET / HTTP/1.1\r\nHost : a\r\n\r\n",
     b"GET / HTTP/1.1\r\n\r\n",
